@@ -28,7 +28,13 @@ func snapshotShared() map[string]*admissionv1.AdmissionResponse {
 }
 
 // C15: histories through a long-lived Admission vs fresh instances, sequentially and concurrently.
-func C15(seed int64, n int) (*cq.Set, *cq.Interner) {
+func C15(seed int64, n int) (*cq.Set, *cq.Interner) { return c15Stream(seed, n, false) }
+
+// C18Hist: the C15 histories with the long-lived instance's counters compared, after the sequential phase, with
+// the sum of what each request records when handled alone by a fresh instance (filed under C18).
+func C18Hist(seed int64, n int) (*cq.Set, *cq.Interner) { return c15Stream(seed, n, true) }
+
+func c15Stream(seed int64, n int, metricsCheck bool) (*cq.Set, *cq.Interner) {
 	r := rand.New(rand.NewSource(seed))
 	in := cq.NewInterner()
 	set := &cq.Set{Stream: "c15", Seed: seed, Imports: "Model.Api Model.Pod Model.Checks Model.Admission Model.Wire Corr.Adm Corr.C15", CaseTy: "c15_case", RunFn: "run_c15",
@@ -95,6 +101,36 @@ func C15(seed int64, n int) (*cq.Set, *cq.Interner) {
 			if now := snapshotShared(); !reflect.DeepEqual(now, initial) {
 				set.GoFails = append(set.GoFails, cq.GoFail{What: "a process-wide shared response object was modified while serving a request", Replay: map[string]interface{}{"request": scs[i].Req, "world": scs[i].World, "shared_now": now}})
 				initial = now
+			}
+		}
+		if metricsCheck {
+			want := map[string]float64{}
+			for i := range scs {
+				fresh := adm.Run(&scs[i].Cfg, inner, &scs[i].Req, &scs[i].World)
+				for _, e := range fresh.Trace {
+					switch e.Kind {
+					case "meval":
+						want["pod_security_evaluations_total"]++
+					case "mexempt":
+						want["pod_security_exemptions_total"]++
+					case "merror":
+						want["pod_security_errors_total"]++
+					}
+				}
+			}
+			got := map[string]float64{}
+			if fams, err := reg.Gather(); err == nil {
+				for _, fam := range fams {
+					for _, m := range fam.GetMetric() {
+						got[fam.GetName()] += m.GetCounter().GetValue()
+					}
+				}
+			}
+			for _, name := range []string{"pod_security_evaluations_total", "pod_security_exemptions_total", "pod_security_errors_total"} {
+				if got[name] != want[name] {
+					set.GoFails = append(set.GoFails, cq.GoFail{What: fmt.Sprintf("after a history of %d requests on one long-lived instance %s totals %v, but the requests handled one by one by fresh instances record %v", len(scs), name, got[name], want[name]),
+						Replay: map[string]interface{}{"history": h, "cfg": cfg, "requests": scs, "counter": name, "long_lived_total": got[name], "sum_of_fresh": want[name]}})
+				}
 			}
 		}
 		// concurrent replay
